@@ -9,6 +9,7 @@ mod c09;
 mod c11;
 mod c14;
 mod check;
+mod conc;
 mod cuts;
 mod history;
 mod hooks;
